@@ -189,6 +189,34 @@ Proof.
     + rewrite (IH s' alive' (doc s') I' eq_refl). rewrite last_cons. reflexivity.
 Qed.
 
+(* ---- WRITES LAND IN THE ORDER THEY ARE OFFERED: Cache.Write is called synchronously inside the
+   locked step and the step ends only when it has returned, so (writes succeeding) the cache content
+   at rest after any run is the LAST document offered - however long any single write took *)
+Theorem content_is_last_offered es : forall (h : hstate V),
+  pers (hrun h (map (fun e => (e, true)) es))
+  = List.last (map (@Some _) (writes_of (run_trace (hst h) (polling h) es))) (pers h).
+Proof.
+  induction es as [|e es IH]; intros h; cbn [map hrun fold_left run_trace writes_of flat_map List.last]; auto.
+  change (fold_left (@hstep V) (map (fun e0 => (e0, true)) es) (hstep h (e, true))) with (hrun (hstep h (e, true)) (map (fun e0 => (e0, true)) es)).
+  rewrite IH. unfold hstep.
+  destruct (step_alive (polling h) (hst h) e) as [[[s' fx] r] alive'] eqn:E. cbn [hst polling pers].
+  assert (F : fx = [] \/ exists d, fx = [Flush d]).
+  { destruct (step_alive_cases (hst h) (polling h) e) as [C|C]; rewrite E in C; cbn [fst] in C.
+    - destruct e as [n ans now|n now|now ans|]; cbn [step] in C.
+      + destruct (secret_locked (hst h) n) as [s1 ok]. destruct ok; [inversion C; auto|].
+        destruct (allow (hst h)); [|inversion C; auto]. destruct ans as [[v b]|]; [|inversion C; auto].
+        unfold lookup_install in C. inversion C. right. eexists. reflexivity.
+      + destruct (secret_locked (hst h) n) as [s1 ok]. destruct ok; [|inversion C; auto].
+        destruct (read s1 n now). inversion C; auto.
+      + unfold refresh in C. destruct (poll (snapshot (hst h) now) (fun (n : name) (_ : N) => assoc_resp ans n)) as [[|u ups]|];
+          cbn [apply_updates] in C; inversion C; auto. right. eexists. reflexivity.
+      + unfold shutdown_flush in C. inversion C. right. eexists. reflexivity.
+    - inversion C; auto. }
+  destruct F as [->|[d ->]]; cbn [persist fold_left flat_map app map].
+  - reflexivity.
+  - unfold writes_of. rewrite last_cons. reflexivity.
+Qed.
+
 (* ---- the cache content tracks the state: invariant over all histories with working writes *)
 Definition clean (P : store -> Prop) (h : hstate V) : Prop :=
   match pers h with
